@@ -1173,7 +1173,7 @@ sansScaling (const Matrix33<T>& mat, bool exc)
     Matrix33<T> M;
 
     M.translate (tran);
-    M.rotate (rot);
+    M = Matrix33<T> ().setRotation (rot) * M;
     M.shear (shr);
 
     return M;
@@ -1192,7 +1192,7 @@ removeScaling (Matrix33<T>& mat, bool exc)
 
     mat.makeIdentity ();
     mat.translate (tran);
-    mat.rotate (rot);
+    mat = Matrix33<T> ().setRotation (rot) * mat;
     mat.shear (shr);
 
     return true;
